@@ -1,10 +1,41 @@
-"""What the thorough tier adds (DESIGN.md A.13); filled in by sa.mutate."""
+"""What the thorough tier adds to the quick rules (DESIGN.md A.13, §10.9):
+  * mutation adequacy — every kill mutant of the property's table (sa/mutants.py) must be reported, every
+    behaviour-preserving twin must be silent (in-memory overlays of the current tree, nothing is written or executed);
+  * twin invariance — the property's verdicts must be identical on twelve whole-repository behaviour-preserving
+    rewrites of the current tree (sa/twins.py).
+Both are statements about the *checker* on the current tree: a surviving mutant or a differing twin is printed as a
+CHECKER-WEAKNESS line and recorded in the evidence; it is not a violation of the property."""
 from __future__ import annotations
+
+import concurrent.futures as cf
+import os
+
+
+def _twin_job(args):
+    pid, kind = args
+    from . import twins
+    return kind, twins.compare(pid, kind)
 
 
 def run(pid, ctx, meta) -> list[str]:
+    lines: list[str] = []
     try:
         from . import mutate
+        lines += mutate.adequacy(pid, ctx, meta)
     except ImportError:
-        return []
-    return mutate.adequacy(pid, ctx, meta)
+        pass
+    from . import twins
+    kinds = [k for k in os.environ.get("TWIN_KINDS", ",".join(twins.ALL_KINDS)).split(",") if k]
+    res = {}
+    workers = min(int(os.environ.get("MUT_WORKERS", "16")), len(kinds)) or 1
+    with cf.ProcessPoolExecutor(max_workers=workers) as ex:
+        for kind, (verdict, detail) in ex.map(_twin_job, [(pid, k) for k in kinds]):
+            res[kind] = {"verdict": verdict, "detail": detail[:300]}
+    same = [k for k, v in res.items() if v["verdict"] in ("identical", "keys")]
+    lines.append(f"twin-invariance property={pid} rewrites={len(res)} identical={len(same)} "
+                 f"({', '.join(k for k in kinds)})")
+    for k, v in res.items():
+        if v["verdict"] in ("differs", "error"):
+            lines.append(f"CHECKER-WEAKNESS property={pid} verdicts change under the behaviour-preserving rewrite '{k}': {v['detail']}")
+    ctx.extra["twin_invariance"] = res
+    return lines
